@@ -339,7 +339,7 @@ def c06_extra(Job, tier):
 
 
 def c07_extra(Job, tier):
-    return trackcheck_jobs(Job) + mmb_jobs(Job) + write_span_jobs(Job) + selector_jobs(Job) + [j for j in names_jobs(Job) if "less" in j.name] + [j for j in space_jobs(Job) if "start_sec" in j.name] + hfegeom_jobs(Job)
+    return trackcheck_jobs(Job) + mmb_jobs(Job) + write_span_jobs(Job) + selector_jobs(Job) + [j for j in names_jobs(Job) if "less" in j.name] + [j for j in space_jobs(Job) if "start_sec" in j.name] + hfegeom_jobs(Job) + [j for j in hfelut_jobs(Job) if "read_track" in j.name or "decode_header" in j.name]
 
 
 # ---- destination directory / make_name (C12) ---------------------------------------------------------------------------
@@ -404,7 +404,7 @@ def adapter_jobs(Job, cfg=CFG_NDEBUG, tier="quick"):
 
 
 def c05_extra(Job, tier):
-    return adapter_jobs(Job) + copyhfe_jobs(Job)
+    return adapter_jobs(Job) + copyhfe_jobs(Job) + hfelut_jobs(Job)
 
 
 def c06_extra(Job, tier):            # noqa: F811
@@ -600,6 +600,19 @@ def inf_jobs(Job, cfg=CFG_NDEBUG, tier="quick"):
 def hfegeom_jobs(Job, cfg=CFG_NDEBUG, tier="quick"):
     return [Job("D_hfe_geometry_tail_%s" % cfg[0], "harness/dfs_hfegeom.c", "h_hfe_geometry", enforce=["hfe_geometry_tail"],
                 defines=list(cfg[1]), extract=ext(["hfe_encodings", "hfe_geometry_tail"]), tier=tier)]
+
+
+def hfelut_jobs(Job, cfg=CFG_NDEBUG, tier="quick"):
+    g = ["hfe_le_word", "hfe_le_word_it", "PicTrack_ctor", "read_track_offset_lut", "picfileformatheader", "hfe_nextbyte", "hfe_nextshort", "hfe_decode_header", "hfe_lut_call"]
+    import native_replay as NR
+    def J(name, entry, enforce, replace=(), **kw):
+        return Job("D_%s_%s" % (name, cfg[0]), "harness/dfs_hfelut.c", entry, enforce=enforce, replace=list(replace), defines=list(cfg[1]), extract=ext(g), tier=tier,
+                   cbmc=["--unwindset", "bytes_copy_n.0:9", "--unwinding-assertions"], **kw)
+    return [J("hfe_le_word", "h_le_word", ["hfe_le_word"]), J("hfe_le_word_it", "h_le_word_it", ["hfe_le_word_it"]),
+            J("pictrack_ctor", "h_pictrack", ["PicTrack_ctor"]),          # le_word inlined (two calls into one object)
+            J("read_track_offset_lut", "h_read_lut", ["read_track_offset_lut"], loops=True, cover=True, replay=NR.replay_hfe_lut_offset),
+            J("hfe_decode_header", "h_decode_header", ["hfe_decode_header"]),
+            J("hfe_lut_call", "h_lut_call", ["hfe_lut_call"], replay=NR.replay_hfe_lut_offset)]
 
 
 def prefix_jobs(Job, cfg=CFG_NDEBUG, tier="quick"):
